@@ -26,6 +26,8 @@ FLAVOURS = {
         "bin": "target-tsan/x86_64-unknown-linux-gnu/mon/hsv",
         "run_env": {"TSAN_OPTIONS": "halt_on_error=0:exitcode=66:report_signal_unsafe=0"},
     },
+    # Miri: undefined-behaviour and data-race interpreter; the "binary" is a wrapper around `cargo miri run`
+    "miri": {"cmd": ["./miri-run.sh", "merge-fp"], "bin": "miri-run.sh"},
 }
 
 
@@ -46,6 +48,12 @@ def crash_signature(prop, crash):
         kind = "lsan"
     elif "ThreadSanitizer" in err:
         kind = "tsan"
+    elif "Data race detected" in err:
+        kind = "miri-data-race"
+    elif "Undefined Behavior" in err:
+        kind = "miri-ub"
+    elif "memory leaked" in err or "leaked" in err and "miri" in crash.get("flavour", ""):
+        kind = "miri-leak"
     return f"worker-death:{kind}:{stream}:{crash.get('flavour', 'mon')}"
 
 
@@ -231,5 +239,72 @@ PROPS = {
                         "neither is only seen by the wall-clock watchdog (inconclusive)"],
         "require_strata": {"both": ["outcome:ok", "outcome:err", "eval:returned", "ladder-paren:depth100000", "prefix", "mutant", "soup", "relation"]},
         "min_evals": {"quick": 300_000, "thorough": 10_000_000},
+    },
+    "C15": {
+        "quick": [phase(16, 1.0, 60)],
+        "thorough": [phase(16, 1.0, 900)],
+        "exhaustive": True,
+        "rule": ("exhaustive over the unit database: every unit x every one of its identifiers: get_unit(id) is that unit (pointer "
+                 "equality); '<x><id>' (Zinc) and {\"_kind\":\"number\",\"val\":x,\"unit\":id} (Hayson) decode to that unit and the exact "
+                 "double for 9 magnitudes (1.5, -40, 0.001, 1e21, 1e-7, 5e-324, +0, -0, 123456.789); encode->decode of Number(x, unit) "
+                 "through both codecs keeps unit and bits; reference-writer spellings (exponent, '_' separators, trailing zeros) of x "
+                 "followed by the unit symbol decode to the unit. Sampled part: near-miss and random strings that are no identifier "
+                 "(case flips, trimmed, padded, plural, one character changed) must give None. distinct = distinct (id, magnitude, path) cells"),
+        "assumptions": ["exhaustive refers to units x identifiers x the 9 magnitudes; the non-identifier part is sampled",
+                        "the unit table (units_generated.rs) is data: the harness enumerates it through the public UNITS map"],
+        "require_strata": {"both": ["lookup", "zinc-decode-by-id", "hayson-decode-by-id", "roundtrip", "zinc-ref-spelling", "non-id"]},
+        "min_evals": {"quick": 20_000, "thorough": 100_000},
+    },
+    "C16": {
+        "quick": [phase(16, 1.0, 60)],
+        "thorough": [phase(16, 1.0, 900)],
+        "exhaustive": True,
+        "rule": ("exhaustive over all ordered pairs of database units (443^2 = 196,249) x 5 magnitudes: convert_to is Ok iff the dimension "
+                 "vectors are equal (both absent counts as equal; both byte units), equals (x*sa+oa-ob)/sb recomputed by the harness to "
+                 "1e-12 relative, and converting back returns x to 1e-9 relative (+ offset term); a*b and a/b, when Ok, give a database "
+                 "unit whose dimension is the sum/difference and whose scale is the product/quotient to 1.5e-3 relative (the database's "
+                 "own precision). Sampled: Number + - * / over random unit pairs and magnitudes: same unit kept, different units rejected, "
+                 "values combined exactly, unit of * and / = the unit algebra's answer"),
+        "assumptions": ["scale tolerance 1.5e-3 relative for derived units: the database rounds some scales (mile/hour 0.447027 vs 0.44704); a tighter oracle would alarm on correct code",
+                        "the unit of (unit-less) +/- (unit-carrying) is not stated: counted as don't-care"],
+        "require_strata": {"both": ["convert-pair", "number-arith"]},
+        "min_evals": {"quick": 196_249, "thorough": 196_249},
+    },
+    "C13": {
+        "quick": [phase(16, 1.0, 90)],
+        "thorough": [phase(16, 1.0, 1500)],
+        "exhaustive": True,
+        "rule": ("(a) exhaustive over the shipped Project Haystack defs (tests/defs/defs.zinc): for every symbol supertypes_of, all_supertypes_of, "
+                 "subtypes_of, all_subtypes_of, inheritance, choices_for, conjuncts_defs, has/has_subtype, fits_marker/val/choice/entity, "
+                 "and fits(a,b) for ALL ordered pairs of symbols, compared as sets with plain BFS closures over the 'is' edges "
+                 "(harness/src/refdefs.rs); reflect() of every def's own tag set and of random tag subsets, Reflection::fits and '^sym' "
+                 "through an EvalContext over that namespace; (b) random acyclic taxonomies (<= 48 defs, depth <= 10; multiple inheritance, "
+                 "diamonds, duplicate and undefined supertypes, conjuncts of defined parts, feature keys, rows without def, non-list 'is') "
+                 "with all symbols, all pairs and random records. distinct = distinct symbols / taxonomies / records"),
+        "assumptions": ["random taxonomies are acyclic and shallow (depth <= 10): all_supertypes_of re-expands shared ancestors, its cost is exponential in diamond depth",
+                        "conjuncts are generated with defined parts only", "exhaustive refers to part (a)"],
+        "require_strata": {"both": ["real:symbol", "real:reflect", "random-taxonomy"]},
+        "min_evals": {"quick": 500_000, "thorough": 500_000},
+    },
+    "C14": {
+        "quick": [phase(8, 12.0, 90)],
+        "thorough": [phase(16, 1.0, 1500),
+                     phase(4, 0.15, 1200, flavour="tsan", streams=["schedule"]),
+                     phase(16, 0.002, 2400, flavour="miri", streams=["schedule"])],
+        "crash_is_violation": True,
+        "rule": ("(history) 24-query scripts (supertypes/all_supertypes/inheritance/fits/reflect/relationship/implementation/tags over 4-7 "
+                 "keys) run in 4 random orders on 4 fresh namespaces: every answer equals the graph oracle and the answer the same query "
+                 "got under any other order. (schedule) trials: 2-16 threads released by a barrier against ONE cold namespace (random "
+                 "taxonomy or the real defs), 1-4 hot keys, 6-25 queries per thread, hook H2 yield points between the cache's critical "
+                 "sections driven by per-thread PRNGs (yield / spin / sleep); every answer is compared with the graph oracle and with a cold "
+                 "single-threaded namespace (list answers include their length, so a partial or duplicated vector is seen); panics caught "
+                 "per thread; deadlock detector = no query completed for 5 s AND every worker asleep with zero CPU delta. Thorough repeats "
+                 "the schedule trials under ThreadSanitizer (-Zbuild-std) and under Miri (data races + UB, shard = scheduler seed). "
+                 "evaluations = answers checked; distinct = distinct queries/trials"),
+        "assumptions": ["schedules are sampled with widened windows, not enumerated; the event log reports how many contended misses, lost races "
+                        "and distinct per-key interleavings were actually produced",
+                        "a stall with busy threads is inconclusive (watchdog), only an all-asleep stall is a deadlock"],
+        "require_strata": {"both": ["history:query", "schedule:trial-with-contended-miss", "schedule:trial-with-lost-race"]},
+        "min_evals": {"quick": 100_000, "thorough": 2_000_000},
     },
 }
